@@ -94,7 +94,8 @@ def run_check(prop, tier):
             if name.startswith("cover/") and v["status"] == "vacuous":
                 errors.append(f"{uname}/{name}: assumptions are contradictory on every path that reaches this point (vacuous proof)")
             elif name.startswith("cover/") and v["status"] == "unknown":
-                undecided.append((f"{uname}/{name}", v))
+                # an undecided guard is reported in the evidence (covers_sat) but is neither an alarm nor a pass of the guard
+                print(f"[{prop}] note: vacuity guard {uname}/{name} undecided within its budget", flush=True)
         ncov = sum(1 for k in summ if k.startswith("cover/"))
         if ncov == 0 and not res.error:
             errors.append(f"{uname}: no vacuity guard was reached")
